@@ -51,24 +51,42 @@ def _in(sub, node):
 
 
 def r1_dtype_table(repo=None):
-    r = Rule("C01.R1", "numpy (byteorder, kind, itemsize) -> HDF5 type table is consistent and exhaustive (tables)")
+    r = Rule("C01.R1", "numpy (byteorder, kind, itemsize) -> HDF5 type table is consistent and exhaustive (table by evaluation)")
+    from .. import ceval
     tu = cfront.ext(repo)
-    rows = dtype_rows(tu)
-    if len(rows) < 22:
-        raise AnalysisError("get_hdf5_data_type: %d rows extracted, 24 confirmed on the reference tree" % len(rows))
+    fn = tu.fn("get_hdf5_data_type")
+    params = [p.name for p in fn.children if p.kind == "ParmVarDecl"]
+    if len(params) != 3:
+        raise AnalysisError("get_hdf5_data_type: expected 3 parameters, found %s" % params)
+    pb, pk, ps = params
     table = {}
-    for cond, name, ret in rows:
+    nrows = 0
+    # the function is evaluated on the whole finite domain the Python writer can present (and some it cannot)
+    for bo in "<>|=":
+        for kind in "iufdcbSV":
+            for size in (1, 2, 4, 8, 16):
+                ret = ceval.run(fn, {pb: ord(bo), pk: ord(kind), ps: size})
+                name = None
+                if ret is not None and ret.children:
+                    m = re.search(r"H5T_[A-Z0-9_]+", ret.nsrc)
+                    name = m.group(0) if m else None
+                    if name is None and ret.children[0].intval() is None and "(-1)" not in ret.nsrc.replace(" ", "") \
+                            and not re.search(r"[A-Z_]{4,}", ret.nsrc):
+                        raise AnalysisError("get_hdf5_data_type: unrecognised return value %s" % ret.nsrc)
+                table[(bo, kind, size)] = (name, ret)
+    seen_rows = set()
+    for (bo, kind, size), (name, ret) in sorted(table.items()):
+        if name is None:
+            continue
         m = re.match(r"H5T_(IEEE_F|STD_I|STD_U)(\d+)(LE|BE)$", name)
-        site = "%s:%s get_hdf5_data_type %s -> %s" % (C_EXT, ret.line, sorted(cond.items()), name)
         if not m:
-            r.violation(C_EXT, "get_hdf5_data_type", "return %s" % name, "unrecognised HDF5 type constant", line=ret.line)
+            if re.match(r"H5T_", name):
+                r.violation(C_EXT, "get_hdf5_data_type", "(%r, %r, %d) -> %s" % (bo, kind, size, name), "unrecognised HDF5 type constant",
+                            line=ret.line)
             continue
         cls = {"IEEE_F": "f", "STD_I": "i", "STD_U": "u"}[m.group(1)]
         bits = int(m.group(2))
         order = {"LE": "<", "BE": ">"}[m.group(3)]
-        kind = cond.get("dtype_char")
-        size = cond.get("bytecount")
-        bo = cond.get("byteorder")
         probs = []
         if kind == "d":
             if cls != "f" or bits != 64:
@@ -76,36 +94,40 @@ def r1_dtype_table(repo=None):
         else:
             if kind != cls:
                 probs.append("kind %r mapped to class %r" % (kind, cls))
-            if size is not None and size * 8 != bits:
-                probs.append("itemsize %s mapped to %d bits" % (size, bits))
-            if size is None and bo is None and bits != 8:
-                probs.append("byte-order-free row must be a 1-byte type")
-        if bo is not None and bo != order:
+            if bo in "<>" and size * 8 != bits:
+                probs.append("itemsize %d mapped to %d bits" % (size, bits))
+            if bo not in "<>" and size == 1 and bits != 8:
+                probs.append("1-byte type mapped to %d bits" % bits)
+        if bo in "<>" and bo != order:
             probs.append("byte order %r mapped to %s" % (bo, m.group(3)))
+        if bo not in "<>" and size != 1:
+            continue  # numpy reports '|' only for 1-byte types and '=' is normalised by the writer
+        key = (ret.begin, name)
         if probs:
-            r.violation(C_EXT, "get_hdf5_data_type", "%s -> %s" % (sorted(cond.items()), name),
-                        "dtype table row is inconsistent: %s (data would be stored with the wrong width/order/class and "
-                        "not read back bit-for-bit)" % "; ".join(probs), line=ret.line)
-        else:
-            r.ok(site, "class, width and byte order of the constant agree with the row's condition")
-        table[(bo, kind, size)] = name
-    # exhaustiveness over what DigitalRFWriter.__init__ can pass
+            r.violation(C_EXT, "get_hdf5_data_type", "(%r, %r, %d) -> %s" % (bo, kind, size, name),
+                        "dtype table cell is inconsistent: %s (data would be stored with the wrong width/order/class and not read "
+                        "back bit-for-bit)" % "; ".join(probs), line=ret.line)
+        elif key not in seen_rows:
+            seen_rows.add(key)
+            nrows += 1
+            r.ok("%s:%s get_hdf5_data_type (%r, %r, %d) -> %s" % (C_EXT, ret.line, bo, kind, size, name),
+                 "class, width and byte order of the constant agree with the inputs that select it")
     missing = []
     for bo in ("<", ">"):
         for kind, sizes in (("i", (1, 2, 4, 8)), ("u", (1, 2, 4, 8)), ("f", (4, 8))):
-            for s in sizes:
-                if (bo, kind, s) not in table:
-                    missing.append((bo, kind, s))
+            for sz in sizes:
+                if table[(bo, kind, sz)][0] is None:
+                    missing.append((bo, kind, sz))
     for kind in ("i", "u"):
-        if (None, kind, None) not in table and ("|", kind, 1) not in table:
+        if table[("|", kind, 1)][0] is None:
             missing.append(("|", kind, 1))
     if missing:
         for mrow in missing:
             r.violation(C_EXT, "get_hdf5_data_type", "no row for %r" % (mrow,),
-                        "a dtype the Python writer accepts has no HDF5 type (writer creation fails for it)")
+                        "a dtype the Python writer accepts has no HDF5 type (writer creation fails for it)", line=fn.line)
     else:
-        r.ok("%s get_hdf5_data_type exhaustiveness" % C_EXT, "all 22 (byteorder, kind, itemsize) cells the writer can pass "
-             "select a row")
+        r.ok("%s get_hdf5_data_type exhaustiveness" % C_EXT, "all 22 (byteorder, kind, itemsize) cells the writer can pass select a type "
+             "(function evaluated on %d input cells)" % len(table))
     # the Python side passes byteorder normalised to '<'/'>' (or '|'), realdtype.kind, realdtype.itemsize
     m = pyfront.mod("digital_rf_hdf5", repo)
     init = m.fn("DigitalRFWriter.__init__")
@@ -119,7 +141,7 @@ def r1_dtype_table(repo=None):
     else:
         r.violation(m.rel, "DigitalRFWriter.__init__", "init(%s)" % ", ".join(a), "dtype description passed to the "
                     "extension is not (byteorder, kind, itemsize) of realdtype", line=calls[0].lineno)
-    r.guard(24)
+    r.guard(20)
     return r
 
 
@@ -276,76 +298,175 @@ def r3_exact_lookup(repo=None, rid="C01.R3"):
 # R4 extension passes data through unchanged
 # ---------------------------------------------------------------------------
 
-def _single_def_src(fn, var):
-    defs = [norm(rhs.src) for p, n, rhs, k in clib.stores(fn) if p == var and rhs is not None and k == "="]
-    return defs
+def _parse_targets(fn):
+    pc = fn.calls(("PyArg_ParseTuple",))
+    if not pc:
+        raise AnalysisError("%s: PyArg_ParseTuple not found" % fn.name)
+    out = []
+    for a in pc[0].args[2:]:
+        s = a.strip(casts=True)
+        out.append(s.children[0].path() if s.kind == "UnaryOperator" and s.opcode == "&" else s.path())
+    return out
+
+
+def _strip_parens(t):
+    while t.startswith("(") and t.endswith(")"):
+        depth = 0
+        ok = True
+        for i, ch in enumerate(t):
+            if ch == "(":
+                depth += 1
+            elif ch == ")":
+                depth -= 1
+                if depth == 0 and i != len(t) - 1:
+                    ok = False
+                    break
+        if not ok:
+            break
+        t = t[1:-1]
+    return t
+
+
+def _canon(t):
+    t = re.sub(r"\(uint64_t\*?\)|\(void\*\)|\(char\*\)", "", t)
+    prev = None
+    while prev != t:
+        prev = t
+        t = re.sub(r"(?<![A-Za-z0-9_\]])\(\(([^()]*)\)\)", r"(\1)", t)
+        t = re.sub(r"(?<![A-Za-z0-9_\]])\(([A-Za-z_][A-Za-z_0-9]*)\)", r"\1", t)
+        t = re.sub(r"(?<![A-Za-z0-9_\]])\((\*?[A-Za-z_][A-Za-z_0-9]*\([^()]*\)(?:\[0\])?)\)", r"\1", t)
+    return _strip_parens(t)
 
 
 def r4_extension_passthrough(repo=None):
     r = Rule("C01.R4", "the extension hands the array's own data pointer and length to the library")
     tu = cfront.ext(repo)
+
+    def classify(texts, want_fn, arr, extra=None):
+        """'ok' if every expansion is want_fn applied to arr, 'wrong:<arr>' if applied to another array, else 'unknown'"""
+        verdict = "ok"
+        for t in texts:
+            t = _canon(t)
+            m = re.match(want_fn, t)
+            if not m:
+                return "unknown:" + t
+            if m.group("arr") != arr:
+                return "wrong:" + m.group("arr")
+        return verdict
+
+    DATA = r"^\*?PyArray_DATA\((?P<arr>\w+)\)$"
+    DIM0 = r"^PyArray_DIMS\((?P<arr>\w+)\)\[0\]$"
+    # ---- contiguous write
     fn = tu.fn("_py_rf_write_hdf5_rf_write")
-    c = fn.calls(("digital_rf_write_hdf5",))
-    if len(c) != 1:
+    g = _cfg.build_c(fn)
+    T = _parse_targets(fn)
+    if len(T) != 3:
+        raise AnalysisError("_py_rf_write_hdf5_rf_write: expected 3 parsed arguments")
+    calls = fn.calls(("digital_rf_write_hdf5",))
+    if len(calls) != 1:
         raise AnalysisError("expected one digital_rf_write_hdf5 call in _py_rf_write_hdf5_rf_write")
-    c = c[0]
-    argv = [a.path() for a in c.args]
-    d_data = _single_def_src(fn, argv[2]) if argv[2] else []
-    d_len = _single_def_src(fn, argv[3]) if argv[3] else []
-    arr = None
-    mm = re.match(r"PyArray_DATA\((\w+)\)$", d_data[0]) if len(d_data) == 1 else None
-    if mm:
-        arr = mm.group(1)
-    ok = bool(arr) and len(d_len) == 1 and re.sub(r"\s", "", d_len[0]) in (
-        "(uint64_t)(PyArray_DIMS(%s)[0])" % arr, "PyArray_DIMS(%s)[0]" % arr, "(uint64_t)PyArray_DIMS(%s)[0]" % arr) \
-        and argv[1] == "next_sample"
+    c = calls[0]
+    n = clib.node_of(g, c)
+    v_data = classify(clib.expand(fn, g, n.id, c.args[2]), DATA, T[1])
+    v_len = classify(clib.expand(fn, g, n.id, c.args[3]), DIM0, T[1])
+    v_idx = "ok" if c.args[1].path() == T[2] else "unknown:" + str(c.args[1].path())
     site = "%s:%s _py_rf_write_hdf5_rf_write" % (C_EXT, c.line)
-    if ok:
-        r.ok(site, "data = PyArray_DATA(%s), length = PyArray_DIMS(%s)[0], index = the parsed next_sample" % (arr, arr))
-    else:
-        r.violation(C_EXT, fn.name, c.nsrc[:90], "the data pointer / length / index handed to the library are not those of "
-                    "the array argument (data=%s len=%s)" % (d_data, d_len), line=c.line)
+    for what, v in (("data pointer", v_data), ("length", v_len), ("start index", v_idx)):
+        if v.startswith("wrong"):
+            r.violation(C_EXT, fn.name, "%s taken from `%s`" % (what, v[6:]), "the %s handed to digital_rf_write_hdf5 is that of "
+                        "another argument than the data array `%s`" % (what, T[1]), line=c.line)
+        elif v.startswith("unknown"):
+            raise AnalysisError("%s: provenance of the %s not recognised: %s" % (fn.name, what, v[8:]))
+    if (v_data, v_len, v_idx) == ("ok", "ok", "ok"):
+        r.ok(site, "data = PyArray_DATA(%s), length = PyArray_DIMS(%s)[0], index = the parsed `%s`" % (T[1], T[1], T[2]))
+    # ---- block write
     fn = tu.fn("_py_rf_write_hdf5_rf_block_write")
+    g = _cfg.build_c(fn)
+    T = _parse_targets(fn)
+    if len(T) != 4:
+        raise AnalysisError("_py_rf_write_hdf5_rf_block_write: expected 4 parsed arguments")
     cb = fn.calls(("digital_rf_write_blocks_hdf5",))
     cw = fn.calls(("digital_rf_write_hdf5",))
     if len(cb) != 1 or len(cw) != 1:
         raise AnalysisError("expected one blocks call and one per-block call in _py_rf_write_hdf5_rf_block_write")
     cb, cw = cb[0], cw[0]
-    # nearest preceding definitions (the function assigns `data` in both branches)
-    def last_def_before(var, call):
-        best = None
-        for p, n, rhs, k in clib.stores(fn):
-            if p == var and rhs is not None and k == "=" and n.begin < call.begin:
-                if best is None or n.begin > best[0]:
-                    best = (n.begin, norm(rhs.src))
-        return best[1] if best else None
-
-    a = [x.path() for x in cb.args]
-    defs = {v: last_def_before(v, cb) for v in a[1:] if v}
-    want = {a[1]: "PyArray_DATA(pyGlobalArr)", a[2]: "PyArray_DATA(pyBlockArr)", a[4]: "PyArray_DATA(pyNumArr)"}
-    good = all(re.sub(r"\s", "", defs.get(k) or "") == v for k, v in want.items())
-    good = good and re.sub(r"\s", "", defs.get(a[3]) or "").endswith("PyArray_DIMS(pyGlobalArr)[0])") \
-        and re.sub(r"\s", "", defs.get(a[5]) or "").endswith("PyArray_DIMS(pyNumArr)[0])")
-    site = "%s:%s _py_rf_write_hdf5_rf_block_write (blocks)" % (C_EXT, cb.line)
-    if good:
-        r.ok(site, "global/block/data pointers and both lengths come from the three array arguments in the library's order")
-    else:
-        r.violation(C_EXT, fn.name, cb.nsrc[:90], "pointers/lengths passed to digital_rf_write_blocks_hdf5 are not those of "
-                    "the corresponding array arguments: %s" % defs, line=cb.line)
-    a = [x.path() for x in cw.args]
-    d_data = last_def_before(a[2], cw)
-    d_idx = last_def_before(a[1], cw)
-    d_len = last_def_before(a[3], cw)
-    good = re.sub(r"\s", "", d_data or "") == "PyArray_GETPTR2(pyNumArr,block_index,0)" \
-        and "PyArray_GETPTR1(pyGlobalArr, i)" in (d_idx or "") \
-        and re.sub(r"\s", "", d_len or "") == "next_block_index-block_index"
+    nb = clib.node_of(g, cb)
+    want = [("global index array", 1, DATA, T[2]), ("block offset array", 2, DATA, T[3]), ("number of blocks", 3, DIM0, T[2]),
+            ("data pointer", 4, DATA, T[1]), ("length", 5, DIM0, T[1])]
+    allok = True
+    for what, i, pat, arr in want:
+        v = classify(clib.expand(fn, g, nb.id, cb.args[i]), pat, arr)
+        if v.startswith("wrong"):
+            allok = False
+            r.violation(C_EXT, fn.name, "%s taken from `%s`" % (what, v[6:]), "the %s handed to digital_rf_write_blocks_hdf5 comes "
+                        "from `%s` instead of `%s`" % (what, v[6:], arr), line=cb.line)
+        elif v.startswith("unknown"):
+            raise AnalysisError("%s: provenance of the %s not recognised: %s" % (fn.name, what, v[8:]))
+    if allok:
+        r.ok("%s:%s _py_rf_write_hdf5_rf_block_write (blocks)" % (C_EXT, cb.line), "global/block/data pointers and both lengths come "
+             "from the three array arguments in the library's order")
+    nw = clib.node_of(g, cw)
+    PTR1 = r"^\*PyArray_GETPTR1\((?P<arr>\w+),(?P<i>\w+)\)$"
+    PTR1N = r"^\*PyArray_GETPTR1\((?P<arr>\w+),(?P<i>\w+)\+1\)$"
+    PTR2 = r"^PyArray_GETPTR2\((?P<arr>\w+),(?P<row>.+),0\)$"
+    probs = []
+    unknown = []
+    for t in clib.expand(fn, g, nw.id, cw.args[1]):
+        m = re.match(PTR1, _canon(t))
+        if not m:
+            unknown.append("index " + _canon(t))
+        elif m.group("arr") != T[2]:
+            probs.append("the block's global index is read from `%s` instead of `%s`" % (m.group("arr"), T[2]))
+    rows = set()
+    for t in clib.expand(fn, g, nw.id, cw.args[2]):
+        m = re.match(PTR2, _canon(t))
+        if not m:
+            unknown.append("data " + _canon(t))
+        else:
+            if m.group("arr") != T[1]:
+                probs.append("the block's data pointer is taken from `%s` instead of `%s`" % (m.group("arr"), T[1]))
+            mm = re.match(PTR1, _canon(m.group("row")))
+            if not mm:
+                unknown.append("row " + m.group("row"))
+            elif mm.group("arr") != T[3]:
+                probs.append("the block's first row is read from `%s` instead of `%s`" % (mm.group("arr"), T[3]))
+    for t in clib.expand(fn, g, nw.id, cw.args[3]):
+        t = _canon(t)
+        # end - start, where start = *GETPTR1(T3,i) and end in {*GETPTR1(T3,i+1), DIMS(T1)[0]}
+        depth = 0
+        cut = None
+        for i, ch in enumerate(t):
+            if ch in "([":
+                depth += 1
+            elif ch in ")]":
+                depth -= 1
+            elif ch == "-" and depth == 0:
+                cut = i
+        if cut is None:
+            unknown.append("length " + t)
+            continue
+        e, b0 = _canon(t[:cut]), _canon(t[cut + 1:])
+        mb = re.match(PTR1, b0)
+        me = re.match(PTR1N, e) or re.match(DIM0, e)
+        if not mb or not me:
+            unknown.append("length %s - %s" % (e, b0))
+            continue
+        if mb.group("arr") != T[3]:
+            probs.append("block length start read from `%s`" % mb.group("arr"))
+        if me.re.pattern == PTR1N and me.group("arr") != T[3]:
+            probs.append("block length end read from `%s`" % me.group("arr"))
+        if me.re.pattern == DIM0 and me.group("arr") != T[1]:
+            probs.append("last block's end is the length of `%s`" % me.group("arr"))
     site = "%s:%s _py_rf_write_hdf5_rf_block_write (per-block loop)" % (C_EXT, cw.line)
-    if good:
-        r.ok(site, "block i is written from row block_index of the data array, at global index i, with length "
-                   "next_block_index - block_index")
+    if probs:
+        for pmsg in sorted(set(probs)):
+            r.violation(C_EXT, fn.name, pmsg, "per-block write in continuous mode does not take block i's data / index / length from the "
+                        "corresponding arrays", line=cw.line)
+    elif unknown:
+        raise AnalysisError("%s: per-block write arguments not recognised: %s" % (fn.name, sorted(set(unknown))[:3]))
     else:
-        r.violation(C_EXT, fn.name, cw.nsrc[:90], "per-block write in continuous mode does not take block i's data / index / "
-                    "length (data=%r index=%r len=%r)" % (d_data, d_idx, d_len), line=cw.line)
+        r.ok(site, "block i is written from row %s[i] of %s, at global index %s[i], with length next offset (or total length) minus "
+                   "its own offset" % (T[3], T[1], T[2]))
     # Python: contiguous + safe cast on every path
     m = pyfront.mod("digital_rf_hdf5", repo)
     q = "DigitalRFWriter._cast_input_array"
@@ -360,9 +481,11 @@ def r4_extension_passthrough(repo=None):
     rets = [n for n in g.nodes if n.kind == "return"]
     bad = [x for x in rets if x.id in g.reach([g.entry.id], avoid=contig, skip_labels=("exc",))
            or x.id in g.reach([g.entry.id], avoid=safe, skip_labels=("exc",))]
-    if bad or unsafe or not rets:
+    if not rets:
+        raise AnalysisError("%s has no return" % q)
+    if bad or unsafe:
         r.violation(m.rel, q, "return without ascontiguousarray + astype(casting='safe')", "data can reach the C library "
-                    "non-contiguous or after a lossy cast", line=(bad or unsafe or [g.entry])[0].line)
+                    "non-contiguous or after a lossy cast", line=(bad or unsafe)[0].line)
     else:
         r.ok("%s:%s %s" % (m.rel, m.fn(q).lineno, q), "every path to the return passes np.ascontiguousarray and an "
              "astype(..., casting='safe')")
@@ -456,14 +579,20 @@ def r5_interface_agreement(repo=None):
                                     "positional arguments" % len(cvars), line=c.lineno)
                         continue
                     leafs = [_leaf(a) for a in c.args]
-                    mism = [(i, a, b) for i, (a, b) in enumerate(zip(leafs, cvars)) if not _same(a, b)]
-                    if mism:
-                        i, a, b = mism[0]
+                    # positive evidence of a transposition: an argument's name matches the variable parsed at ANOTHER position
+                    mism = [(i, a, b, [j for j, cv in enumerate(cvars) if j != i and _same(a, cv)])
+                            for i, (a, b) in enumerate(zip(leafs, cvars)) if not _same(a, b)]
+                    swapped = [x for x in mism if x[3]]
+                    if swapped:
+                        i, a, b, js = swapped[0]
                         r.violation(m.rel, q, "%s argument %d is `%s`, parsed into `%s`" % (d, i, a, b),
                                     "positional argument order at the Python call site differs from the order the extension "
-                                    "parses (same-typed arguments transposed compile and run silently)", line=c.lineno)
+                                    "parses: `%s` is parsed at position %d (same-typed arguments transposed compile and run "
+                                    "silently)" % (a, js[0]), line=c.lineno)
                     else:
-                        r.ok(site, "%d positional arguments, in the order the extension parses them" % len(leafs))
+                        unk = ["%s~%s" % (a, b) for i, a, b, js in mism]
+                        r.ok(site, "%d positional arguments, none of them named like a variable parsed at another position%s" % (
+                            len(leafs), (" (names not comparable: %s)" % ", ".join(unk)) if unk else ""))
     mcalls = 0
     for c in ast.walk(m.tree):
         if isinstance(c, ast.Call) and (pyfront.call_name(c) or "").startswith("_py_rf_write_hdf5."):
@@ -490,14 +619,20 @@ def r5_interface_agreement(repo=None):
                 continue
             loose = {"global_arr": "global_index_arr", "block_arr": "data_index_arr", "index_length": "index_len",
                      "data": "vector", "next_sample": "global_leading_edge_index", "block_length": "vector_length"}
-            mism = [(a, b) for a, b in zip(names, params) if not (_same(a, b) or loose.get(a) == b)]
-            if mism:
-                a, b = mism[0]
+            def same2(a, b):
+                return a is not None and (_same(a, b) or loose.get(a) == b)
+            mism = [(i, a, b, [j for j, pj in enumerate(params) if j != i and same2(a, pj)])
+                    for i, (a, b) in enumerate(zip(names, params)) if not same2(a, b)]
+            swapped = [x for x in mism if x[3]]
+            if swapped:
+                i, a, b, js = swapped[0]
                 r.violation(C_EXT, cname, "%s passes `%s` for parameter `%s`" % (libname, a, b),
-                            "the wrapper forwards its arguments in a different order than the library declares them",
-                            line=c.line)
+                            "the wrapper forwards its arguments in a different order than the library declares them (`%s` is the "
+                            "name of parameter %d)" % (a, js[0]), line=c.line)
             else:
-                r.ok(site, "arguments forwarded in the order of the library's parameter names")
+                unk = ["%s~%s" % (a, b) for i, a, b, js in mism]
+                r.ok(site, "no argument is named like a parameter at another position%s" % (
+                    (" (names not comparable: %s)" % ", ".join(unk)) if unk else ""))
     # Py_BuildValue of get_unix_time vs the Python unpacking
     fn = tu.fn("_py_rf_write_hdf5_get_unix_time")
     bv = fn.calls(("Py_BuildValue",))
